@@ -50,6 +50,7 @@ type Reach struct {
 	partialThrough bool
 	partialBlock   int
 	partialIdx     int
+	thrEdges       map[Edge]bool // edges taken out of threaded (const-phi) blocks
 }
 
 func stopIndex(b *ssa.BasicBlock, cut *Cut, from int) int {
@@ -88,49 +89,114 @@ func ReachAfter(fn *ssa.Function, start ssa.Instruction, cut *Cut) *Reach {
 	return r
 }
 
-// partial[b] = first instruction index considered in start block
+// constPhiArm: block b ends in an If whose condition is (modulo NOT) a phi of
+// b; when b is entered from pred p and the phi's value on that edge is a
+// boolean constant, only one arm can be taken. Returns that successor.
+func constPhiArm(b *ssa.BasicBlock, p *ssa.BasicBlock) *ssa.BasicBlock {
+	if p == nil || len(b.Instrs) == 0 {
+		return nil
+	}
+	iff, ok := b.Instrs[len(b.Instrs)-1].(*ssa.If)
+	if !ok {
+		return nil
+	}
+	base, neg := StripNot(iff.Cond)
+	phi, ok := base.(*ssa.Phi)
+	if !ok || phi.Block() != b {
+		return nil
+	}
+	for i, pr := range b.Preds {
+		if pr != p {
+			continue
+		}
+		c, ok := phi.Edges[i].(*ssa.Const)
+		if !ok || c.Value == nil || c.Value.Kind() != constant.Bool {
+			return nil
+		}
+		return Arm(iff, constant.BoolVal(c.Value) != neg)
+	}
+	return nil
+}
+
+func hasConstPhiIf(b *ssa.BasicBlock) bool {
+	for _, p := range b.Preds {
+		if constPhiArm(b, p) != nil {
+			return true
+		}
+	}
+	return false
+}
+
+// bfs explores from (startB, startIdx). Blocks whose If tests a phi of boolean
+// constants are threaded per incoming edge (flag variables such as
+// `found := false; for {... found = true; break}; if !found {...}`).
 func (r *Reach) bfs(startB *ssa.BasicBlock, startIdx int) {
 	type item struct {
-		b   *ssa.BasicBlock
-		idx int
+		b    *ssa.BasicBlock
+		idx  int
+		from *ssa.BasicBlock
 	}
-	queue := []item{{startB, startIdx}}
+	type vkey struct{ b, from int }
+	visited := map[vkey]bool{}
+	queue := []item{{startB, startIdx, nil}}
 	first := true
 	startPartial := startIdx > 0
 	for len(queue) > 0 {
 		it := queue[0]
 		queue = queue[1:]
 		b := it.b
-		if first && startPartial {
-			// the start block is only partially entered; it may be re-entered fully via a loop
-		} else {
-			if r.entered[b.Index] {
+		isFirst := first
+		first = false
+		threaded := it.from != nil && constPhiArm(b, it.from) != nil
+		if !(isFirst && startPartial) {
+			k := vkey{b.Index, -1}
+			if threaded {
+				k.from = it.from.Index
+			}
+			if visited[k] {
+				continue
+			}
+			visited[k] = true
+			// a non-threaded visit subsumes nothing about threaded ones; a block fully
+			// explored without threading need not be re-explored with threading
+			if threaded && visited[vkey{b.Index, -1}] {
 				continue
 			}
 			r.entered[b.Index] = true
 		}
-		isFirst := first
-		first = false
 		if stopIndex(b, r.cut, it.idx) >= 0 {
 			continue
 		}
 		if !(isFirst && startPartial) {
-			r.through[b.Index] = true
+			if !threaded {
+				r.through[b.Index] = true
+			}
 		} else {
 			r.partialThrough = true
 			r.partialBlock = b.Index
 			r.partialIdx = it.idx
 		}
+		var only *ssa.BasicBlock
+		if threaded {
+			only = constPhiArm(b, it.from)
+		}
 		for _, s := range b.Succs {
+			if only != nil && s != only {
+				continue
+			}
 			if r.cut != nil && r.cut.Edges[Edge{b.Index, s.Index}] {
 				continue
 			}
-			if !r.entered[s.Index] {
-				if _, ok := r.pred[s.Index]; !ok {
-					r.pred[s.Index] = b.Index
+			if threaded {
+				if r.thrEdges == nil {
+					r.thrEdges = map[Edge]bool{}
 				}
-				queue = append(queue, item{s, 0})
+				r.thrEdges[Edge{b.Index, s.Index}] = true
 			}
+			if _, ok := r.pred[s.Index]; !ok && !r.entered[s.Index] {
+				r.pred[s.Index] = b.Index
+			}
+			queue = append(queue, item{s, 0, b})
 		}
 	}
 }
@@ -175,6 +241,9 @@ func (r *Reach) EdgeReachable(from, to *ssa.BasicBlock) bool {
 		return false
 	}
 	if r.through[from.Index] {
+		return true
+	}
+	if r.thrEdges[Edge{from.Index, to.Index}] {
 		return true
 	}
 	if r.partialThrough && r.partialBlock == from.Index {
